@@ -164,7 +164,9 @@ def compile_tu(src, flags, tag=""):
     """Compile one TU; returns object path.  Cached by flags + contents of every
     dependency."""
     os.makedirs(OBJ, exist_ok=True)
-    key = hashlib.sha256((" ".join(flags) + "|" + src + "|" + tag).encode()).hexdigest()[:24]
+    # the tree the headers come from is part of the key: an object built against another checkout (VERIF_REPO) must
+    # never be taken for this one's, even though its recorded dependencies are all unchanged
+    key = hashlib.sha256((" ".join(flags) + "|" + src + "|" + tag + "|" + " ".join(include_dirs())).encode()).hexdigest()[:24]
     obj = os.path.join(OBJ, key + ".o")
     meta = os.path.join(OBJ, key + ".json")
     if os.path.exists(obj) and os.path.exists(meta):
